@@ -29,7 +29,8 @@ def main():
         [(None, None), (True, None), (False, None), (True, False), (False, False), (True, True)]
     grid = outcomes.settings_grid(opts=opts)
     big_grid = outcomes.settings_grid(versions=(2, 6, 9), modes=("app",), opts=[(None, None), (False, False)])
-    entries, raw = outcomes.collect(progs, lambda p: big_grid if p.get("big") else grid)
+    small_grid = outcomes.settings_grid(versions=(4, 9), modes=("app",), opts=[(None, None), (False, False)]) + outcomes.settings_grid(versions=(2,), modes=("sig",))
+    entries, raw = outcomes.collect(progs, lambda p: big_grid if p.get("big") else (small_grid if p.get("smallgrid") else grid))
     verdicts, tres, errors = outcomes.judge(entries, "c20")
     for r in tres:
         chk.add_tlc(r)
